@@ -200,7 +200,7 @@ package recordio
 //@   call 0 of io.ReadFull: assert [C04,C12:reads-eight-bytes-from-the-file] arg0 == r.reader && len(arg1) == 8
 //@   call 0 of readFileHeaderFromBuffer: assert [C04,C12:parses-the-bytes-read] arr(arg0) == arr(bytes) && off(arg0) == off(bytes) && len(arg0) == len(bytes)
 //@   ensures [starts-behind-the-file-header] r0 == nil ==> r.open && r.currentOffset == 8 && r.header != nil
-//@   ensures [ready-for-records] r0 == nil ==> len(r.recordHeaderCache) == 36 && r.recordHeaderByteReader != nil && r.bufferPool != nil
+//@   ensures [ready-for-records] r0 == nil ==> len(r.recordHeaderCache) >= 36 && r.recordHeaderByteReader != nil && r.bufferPool != nil
 
 //@ func (*MMapReader).Open
 //@   props C04 C12 C03
